@@ -54,6 +54,33 @@ def run_case(ck: Check, case: dict):
         if len(got) != len(rows) or any(a != b for a, b in zip(got, exp)):
             ck.violation(f"C19/{kind}/wrong-values/{gd.kind}", f"{kind} predictor does not return the number of mismatching positions / zero, in order", dict(rep, expected=exp, observed=got))
             return
+    # one caller-owned Predictor object through a history of uses (scoring, beam searches in both modes, towards
+    # the central state or another destination): afterwards it must still score against the central state
+    if case.get("history"):
+        p = Predictor(g, "hamming")
+
+        def walk(k, salt):
+            st = tuple(gd.central)
+            for j in range(k):
+                st = gd.act((salt + j) % len(gd.gens), st)
+            return st
+
+        for op in case["history"]:
+            kw = {"beam_width": 3, "max_steps": 3, "predictor": p}
+            if op == "score":
+                p(t)
+            elif op == "simple":
+                algos.call(g.beam_search, start_state=list(walk(2, 0)), beam_mode="simple", **kw)
+            elif op == "advanced":
+                algos.call(g.beam_search, start_state=list(walk(2, 1)), beam_mode="advanced", **kw)
+            elif op == "advanced-dest":
+                algos.call(g.beam_search, start_state=list(walk(3, 0)), destination_state=list(walk(1, 1)), beam_mode="advanced", **kw)
+            ck.count("history:" + op)
+        st, out = algos.call(lambda: p(t))
+        got = [float(v) for v in np.asarray(out).reshape(-1).tolist()] if st == "ok" else out
+        if st != "ok" or got != [float(w) for w in want]:
+            ck.violation("C19/hamming/after-history", "a Predictor object no longer returns the distance to the central state after it was used in searches", {"case": case, "expected": want, "observed": got})
+            return
     # batch independence of an arbitrary row-wise predictor
     f = lambda x: (x.reshape(x.shape[0], -1) * torch.arange(1, size + 1)).sum(dim=1) % 1000  # noqa: E731
     one = Predictor(gd.graph(batch_size=10**9, random_seed=1), f)(t).tolist()
@@ -81,7 +108,8 @@ def gen_case(ck):
     rows = [list(gd.central), [(c + 1) % max(hi, 2) for c in gd.central]]
     rows += [[rng.randrange(max(hi, 2)) for _ in range(size)] for _ in range(k)]
     rng.shuffle(rows)
-    return {"gd": gd.to_json(), "rows": rows, "batch": rng.choice([1, 2, 3, len(rows) - 1 or 1, len(rows), len(rows) + 2])}
+    hist = [rng.choice(["score", "simple", "advanced", "advanced-dest"]) for _ in range(rng.randint(1, 3))] if rng.random() < 0.35 else None
+    return {"gd": gd.to_json(), "rows": rows, "batch": rng.choice([1, 2, 3, len(rows) - 1 or 1, len(rows), len(rows) + 2]), "history": hist}
 
 
 def main():
@@ -98,7 +126,7 @@ def main():
         if ck.enough():
             break
         ck.guard(run_case, ck, gen_case(ck))
-    ck.finish(rule="generated permutation and matrix graphs (any state shape) x batches containing the central state, an all-different state and random states x batch sizes 1..len+2; judged by the mismatch count computed in plain Python")
+    ck.finish(rule="generated permutation and matrix graphs (any state shape) x batches containing the central state, an all-different state and random states x batch sizes 1..len+2; x (for a third of the cases) a history of 1-3 earlier uses of the same Predictor object in scoring / simple / advanced beam searches incl. a non-central destination; judged by the mismatch count computed in plain Python")
 
 
 if __name__ == "__main__":
